@@ -4,7 +4,7 @@ import ast
 from . import rule, info
 from ..program import AnalysisError, src, norm, ClassInfo
 from ..tables import COMPARE_DUNDERS
-from ..util import (locals_from_attrs, flows_into, is_name, calls_in, callee_qual, deref, ancestors, evaluator_calls, stmt_of, parent,
+from ..util import (polarity, exclusive, locals_from_attrs, flows_into, is_name, calls_in, callee_qual, deref, ancestors, evaluator_calls, stmt_of, parent,
                     handler_outcomes, completes_normally, handler_covers, in_handler_of, raised_class, is_subclass, cls_name)
 from ..pattern import match, matches
 from .common import option_usage, raise_discipline
@@ -166,9 +166,14 @@ def who_is_returned(ctx):
     if hs:
         rr = [s for s in ast.walk(hs[0].ast) if isinstance(s, ast.Return)]
         ctx.ob(len(rr) == 1 and is_name(rr[0].value, u.params[1]), u, 'a rejected child makes Not yield the target')
-    tr = [n for n in ast.walk(u.node) if isinstance(n, ast.Try)]
-    ok = len(tr) == 1 and len(tr[0].orelse) == 1 and isinstance(tr[0].orelse[0], ast.Raise)
-    ctx.ob(ok, u, 'a passing child makes Not reject (try-else raise)')
+    evn = cfg.node_containing(evs[0])
+    nonexc = lambda lab: lab != 'exc'
+    rets = {n for n in cfg.nodes if n.kind == 'stmt' and isinstance(n.ast, ast.Return)}
+    rej = {n for n in cfg.nodes if n.kind == 'stmt' and isinstance(n.ast, ast.Raise) and n.ast.exc is not None
+           and is_subclass(raised_class(p, u, n.ast), 'MatchError')}
+    ok = cfg.find_path(evn, rets | {cfg.exit}, avoid=rej, labels=nonexc) is None \
+        and cfg.find_path(evn, rej, labels=nonexc) is not None
+    ctx.ob(ok, u, 'a passing child makes Not reject: after a normal evaluation every path raises MatchError')
     ctx.ob(is_name(evs[0].args[0], u.params[1]) and isinstance(evs[0].args[1], ast.Attribute) and evs[0].args[1].attr == 'child', u,
            'Not evaluates its child on the target')
     # M, M(...)
@@ -233,9 +238,18 @@ def defaults(ctx):
         ok = len(rets) == 1 and isinstance(rets[0].value, ast.Call) and callee_qual(p, u, rets[0].value) == 'core.arg_val' \
             and isinstance(rets[0].value.args[1], ast.Attribute) and rets[0].value.args[1].attr == 'default'
         ctx.ob(ok, u, 'the default is evaluated as an argument: %s' % [norm(r) for r in rets])
-        g = [a for r in rets for a in ancestors(r) if isinstance(a, ast.If)]
-        ok = bool(g) and norm(g[0].test) == 'self.default is not _MISSING'
-        ctx.ob(ok, u, 'the default is used only when one was given: %s' % (norm(g[0].test) if g else None))
+        ok = False
+        shown = None
+        for t in cfg.nodes:
+            if t.kind != 'test':
+                continue
+            e = polarity(t.ast, 'self.default is _MISSING')
+            if e and rets:
+                shown = norm(t.ast)
+                given = 'false' if e == 'true' else 'true'
+                rn = cfg.node_of(rets[0])
+                ok = rn in exclusive(cfg, t, given) and cfg.dominates(t, rn)
+        ctx.ob(ok, u, 'the default is used only when one was given: %s' % shown)
     bi = ctx.unit('matching._Bool.__init__')
     st_ = [n for n in bi.own_nodes() if isinstance(n, ast.Assign) and isinstance(n.targets[0], ast.Attribute) and n.targets[0].attr == 'children']
     ctx.ob(len(st_) == 1 and is_name(st_[0].value, bi.vararg), bi,
